@@ -29,6 +29,12 @@ Parameter / regime coverage added by the audit of the signatures (every case fam
 * d = 28 .. 130 without any dense reference (`C01.reductions.many_modes`, `C01.algebra.many_modes`): get / get_many /
   add / sub / mul / outer / interface (all norms, directions, P, i) / get_and_grad / mul_scalar / accuracy / shape /
   ranks / size / erank against exact integer arithmetic on the core chain.
+* repeated core objects (`alias=` parameter of every clause above, `gen.tt_aliased`): well-formed tensors whose core LIST
+  holds one array object at several positions - [g, g, g, g], [A, G, G, G, B], [A, B, A, B], mode size 1, over-ranked -
+  with the repetition including / excluding core 0 ('all' / 'first' / 'rest') and two operands that share core objects
+  with each other ('cross', another list of the very same cores for accuracy); every standard clause, number operands of
+  every kind, accuracy, outer, interface, and expression trees whose leaves are such tensors (`alias=True`).  A routine
+  that copies / caches / rescales "by object" (deepcopy memo, id-keyed caches, in-place scaling of a shared core) shows here.
 Not covered on purpose: `get_and_grad(check_phi=True)` (documented "should be False"; raises NameError on the pinned
 tree), the private `_to_item` flag, `getter` (needs numba, deprecated).
 
@@ -53,7 +59,9 @@ BOUNDS = ('d in {2,3,4} (thorough: 5), mode sizes 1..4 incl. all-ones and leadin
           '(2^63 .. 3^100 entries) against exact rational arithmetic; element access / algebra / interface / get_and_grad / '
           'accuracy / erank for the same d against exact integers; per-core scales 1e-20 .. 1e20 and mixed magnitudes; '
           'mode sizes up to 1030 (thorough 2048); stabilised pair results with per-core 2^-80 .. 2^240; number operands '
-          '1e-150 .. 1e20 and numpy.float64; index dtypes int32 / uint16 / views')
+          '1e-150 .. 1e20 and numpy.float64; index dtypes int32 / uint16 / views; tensors with repeated core objects '
+          '(12 quick / 18 thorough shape x rank configurations x {all, first, rest, cross} sharing patterns, every clause; '
+          '270 / 1430 expression trees with such leaves)')
 
 EPS = np.finfo(float).eps
 LIM = 2 ** 53
@@ -141,14 +149,39 @@ def _weights(n, seed, kind, extra=0):
     return [[float(x) for x in g.uniform(-1, 1, size=k + extra)] for k in n]
 
 
-def _tt_pair(n, r, seed, kind, order, scale=1.0):
-    """(Y, D, B).  scale != 1 multiplies EVERY core (total factor scale^d); the reference is then the float chain."""
+def _tt_pair(n, r, seed, kind, order, scale=1.0, alias=None):
+    """(Y, D, B).  scale != 1 multiplies EVERY core (total factor scale^d); the reference is then the float chain.
+    alias ('all' | 'first' | 'rest' | 'cross'): the core LIST holds one array object at several positions
+    (`gen.tt_aliased`; 'cross' = 'all' here, the sharing BETWEEN two operands is made by `_second`)."""
+    if alias:
+        Y = gen.tt_aliased(n, r, seed, kind, scale=float(scale), order=order, which='all' if alias == 'cross' else alias)
+        if scale != 1.0:
+            return Y, gen.dense(Y), gen.absdense(Y)
+        D, B = _ref(Y, kind)
+        return Y, D, B
     if scale != 1.0:
         Y = gen.tt(n, r, seed, kind, scale=float(scale), order=order)
         return Y, gen.dense(Y), gen.absdense(Y)
     Y = gen.tt(n, r, seed, kind, order=order)
     D, B = _ref(Y, kind)
     return Y, D, B
+
+
+def _second(Y1, n, r, seed, kind, order, scale=1.0, alias=None):
+    """Second operand (Y2, D2, B2) of a binary clause.  Without alias: another rank profile (as before).  With alias:
+    the same rank profile with repeated core objects; alias = 'cross': a tensor that shares the core OBJECTS of Y1 at the
+    even positions (and repeats its own core objects at the other ones)."""
+    if not alias:
+        return _tt_pair(n, _other_ranks(n, r, seed), seed + 1, kind, order, scale)
+    if alias != 'cross':
+        return _tt_pair(n, r, seed + 1, kind, order, scale, alias)
+    Y2 = gen.tt_aliased(n, r, seed + 1, kind, scale=float(scale), order=order, which='all')
+    for k in range(0, len(n), 2):
+        Y2[k] = Y1[k]
+    if scale != 1.0 or kind != 'int' or not all(np.all(G == np.rint(G)) for G in Y2):     # Y1 may carry another scale
+        return Y2, gen.dense(Y2), gen.absdense(Y2)
+    D, B = _ref(Y2, kind)
+    return Y2, D, B
 
 
 def _other_ranks(n, r, seed):
@@ -160,11 +193,11 @@ def _other_ranks(n, r, seed):
 # ----------------------------------------------------------------------------- element access, export
 
 @clause('C01.get.all_indices', funcs=('act_one.get', 'act_one.get_many'))
-def get_all(n, r, seed, kind, order, scale=1.0):
+def get_all(n, r, seed, kind, order, scale=1.0, alias=None):
     """get (single index as list / array, 2-D batch, list of lists), get_many (batch, batch of one, empty
     batch; index arrays of dtype int64 / int32 / uint16, non-contiguous / F-ordered) return val(Y, i) for
     every multi-index i."""
-    Y, D, B = _tt_pair(n, r, seed, kind, order, scale)
+    Y, D, B = _tt_pair(n, r, seed, kind, order, scale, alias)
     snap = gen.snapshot(Y)
     I = gen.all_indices(n)
     want, bnd = D[tuple(I.T)], B[tuple(I.T)]
@@ -211,9 +244,9 @@ def get_all(n, r, seed, kind, order, scale=1.0):
 
 
 @clause('C01.full.dense', funcs=('transformation.full',))
-def full_dense(n, r, seed, kind, order, scale=1.0):
+def full_dense(n, r, seed, kind, order, scale=1.0, alias=None):
     """full(Y) is the dense tensor of shape n_1 x ... x n_d (also when boundary modes have size 1)."""
-    Y, D, B = _tt_pair(n, r, seed, kind, order, scale)
+    Y, D, B = _tt_pair(n, r, seed, kind, order, scale, alias)
     Z = teneva.full(Y)
     if not isinstance(Z, np.ndarray) or Z.shape != tuple(n):
         return FAIL(f'full has shape {getattr(Z, "shape", None)} for mode sizes {n}')
@@ -224,11 +257,11 @@ def full_dense(n, r, seed, kind, order, scale=1.0):
 # ----------------------------------------------------------------------------- reductions
 
 @clause('C01.sum_mean.weights', funcs=('act_one.sum', 'act_one.mean'))
-def sum_mean(n, r, seed, kind, order, scale=1.0):
+def sum_mean(n, r, seed, kind, order, scale=1.0, alias=None):
     """sum = total of all entries; mean = total / number of entries; mean(norm=False) = sum; mean(P) = weighted
     total with P as list of lists / list of arrays / one 2-D array (equal modes), also when P[k] is
     longer than the mode (first n_k used)."""
-    Y, D, B = _tt_pair(n, r, seed, kind, order, scale)
+    Y, D, B = _tt_pair(n, r, seed, kind, order, scale, alias)
     tot, btot = D.sum(), B.sum()
     msg = _agree(teneva.sum(Y), tot, btot, what='sum') or _agree(teneva.mean(Y, norm=False), tot, btot, what='mean(norm=False)')
     if msg:
@@ -311,10 +344,10 @@ def many_modes(d, nk, seed):
 
 
 @clause('C01.mul_scalar_norm.dense', funcs=('act_two.mul_scalar', 'act_one.norm'))
-def dot_norm(n, r, seed, kind, order, scale=1.0):
+def dot_norm(n, r, seed, kind, order, scale=1.0, alias=None):
     """mul_scalar(Y1, Y2) = sum of the element-wise product (unequal rank profiles), norm(Y)^2 = sum of squares."""
-    Y1, D1, B1 = _tt_pair(n, r, seed, kind, order, scale)
-    Y2, D2, B2 = _tt_pair(n, _other_ranks(n, r, seed), seed + 1, kind, ORDERS[(ORDERS.index(order) + 1) % 3], scale)
+    Y1, D1, B1 = _tt_pair(n, r, seed, kind, order, scale, alias)
+    Y2, D2, B2 = _second(Y1, n, r, seed, kind, ORDERS[(ORDERS.index(order) + 1) % 3], scale, alias)
     msg = _agree(teneva.mul_scalar(Y1, Y2), (D1 * D2).sum(), (B1 * B2).sum(), c=256, what='mul_scalar') \
         or _agree(teneva.mul_scalar(Y2, Y1), (D1 * D2).sum(), (B1 * B2).sum(), c=256, what='mul_scalar swapped')
     if msg:
@@ -379,19 +412,22 @@ def dot_norm_stab(n, r, seed, kind, order, ex):
 
 
 @clause('C01.accuracy.dense', funcs=('act_two.accuracy', 'data.accuracy_on_data'))
-def accuracy_dense(n, r, seed, kind, order, near, scale=1.0):
+def accuracy_dense(n, r, seed, kind, order, near, scale=1.0, alias=None):
     """accuracy(Y1, Y2) = ||D1-D2|| / ||D2|| for TT and ndarray arguments; accuracy_on_data = relative
     residual on the data set, -1 without data, e_trunc path within the truncation accuracy."""
-    Y1, D1, B1 = _tt_pair(n, r, seed, kind, order, scale)
-    if near == 'copy':
-        Y2 = [G.copy() for G in Y1]
+    Y1, D1, B1 = _tt_pair(n, r, seed, kind, order, scale, alias)
+    if near == 'copy':              # alias: another LIST of the very same (repeated) core objects
+        Y2 = [G.copy() for G in Y1] if not alias else list(Y1)
         D2, B2 = D1, B1
     elif near == 'scaled':          # Y2 = 2 * Y1 through the first core: accuracy exactly 1/2
-        Y2 = [G.copy() for G in Y1]
-        Y2[0] = Y2[0] * 2
+        Y2 = [G.copy() for G in Y1] if not alias else list(Y1)
+        if not alias:
+            Y2[0] = Y2[0] * 2
+        else:                       # alias: through the last core, so that the repeated object of core 0 stays repeated
+            Y2[-1] = Y2[-1] * 2
         D2, B2 = D1 * 2, B1 * 2
     else:
-        Y2, D2, B2 = _tt_pair(n, _other_ranks(n, r, seed), seed + 1, kind, ORDERS[(ORDERS.index(order) + 2) % 3], scale)
+        Y2, D2, B2 = _second(Y1, n, r, seed, kind, ORDERS[(ORDERS.index(order) + 2) % 3], scale, alias)
     S1, S2 = ((D1 - D2) ** 2).sum(), (D2 ** 2).sum()
     T1, T2 = float(((B1 + B2) ** 2).sum()), float((B2 ** 2).sum())
     if float(S2) <= 1e-6 * T2 or T2 == 0:
@@ -449,12 +485,11 @@ def _dense_of(Z, n, what):
 
 
 @clause('C01.add_sub_mul.tensor_tensor', funcs=('act_two.add', 'act_two.sub', 'act_two.mul'))
-def algebra_tt(n, r, seed, kind, order, scale=1.0, scale2=None):
+def algebra_tt(n, r, seed, kind, order, scale=1.0, scale2=None, alias=None):
     """add / sub / mul of two tensors with unequal rank profiles (and unequal magnitudes) act element-wise; inputs
     untouched."""
-    Y1, D1, B1 = _tt_pair(n, r, seed, kind, order, scale)
-    Y2, D2, B2 = _tt_pair(n, _other_ranks(n, r, seed), seed + 1, kind, ORDERS[(ORDERS.index(order) + 1) % 3],
-                          scale if scale2 is None else scale2)
+    Y1, D1, B1 = _tt_pair(n, r, seed, kind, order, scale, alias)
+    Y2, D2, B2 = _second(Y1, n, r, seed, kind, ORDERS[(ORDERS.index(order) + 1) % 3], scale if scale2 is None else scale2, alias)
     if _exact(D1) != _exact(D2):                        # one operand scaled, the other exact: compare in floats
         D1, B1, D2, B2 = _tofloat(D1), _tofloat(B1), _tofloat(D2), _tofloat(B2)
     snap = gen.snapshot([Y1, Y2])
@@ -481,10 +516,10 @@ NUMS = [2, -3, 1, -1, 0, 0.5, -1.5, 2.0, 1.0, -1.0, 0.0, 3]
 
 
 @clause('C01.add_sub_mul.number_operands', funcs=('act_two.add', 'act_two.sub', 'act_two.mul'))
-def algebra_num(n, r, seed, kind, order, scale=1.0):
+def algebra_num(n, r, seed, kind, order, scale=1.0, alias=None):
     """tensor (+,-,*) number, number (+,-,*) tensor act element-wise with the number broadcast; number with
     number is plain Python arithmetic."""
-    Y, D, B = _tt_pair(n, r, seed, kind, order, scale)
+    Y, D, B = _tt_pair(n, r, seed, kind, order, scale, alias)
     snap = gen.snapshot(Y)
     d = len(n)
     rmax = max(max(G.shape) for G in Y) + 1
@@ -522,10 +557,10 @@ NUMS_FORMS = [1e-20, -1e-20, 1e-16, -1e-16, 3e-16, 1e-12, 1e20, -1e20, 1e-150]
 
 
 @clause('C01.add_sub_mul.number_forms', funcs=('act_two.add', 'act_two.sub', 'act_two.mul'))
-def algebra_num_forms(n, r, seed, kind, order, scale=1.0):
+def algebra_num_forms(n, r, seed, kind, order, scale=1.0, alias=None):
     """Number operands of tiny / huge modulus (on both sides of every magnitude switch of the constant tensor) and
     of type numpy.float64 act element-wise like the plain number."""
-    Y, D, B = _tt_pair(n, r, seed, kind, order, scale)
+    Y, D, B = _tt_pair(n, r, seed, kind, order, scale, alias)
     snap = gen.snapshot(Y)
     d = len(n)
     rmax = max(max(G.shape) for G in Y) + 1
@@ -547,11 +582,12 @@ def algebra_num_forms(n, r, seed, kind, order, scale=1.0):
 
 
 @clause('C01.outer.dense', funcs=('act_two.outer', 'act_many.outer_many'))
-def outer_dense(n, r, seed, kind, order, n2, scale=1.0):
+def outer_dense(n, r, seed, kind, order, n2, scale=1.0, alias=None):
     """outer(Y1, Y2)[i,j] = Y1[i] Y2[j]; outer_many of 1, 2, 3 tensors; inputs untouched."""
-    Y1, D1, B1 = _tt_pair(n, r, seed, kind, order, scale)
-    Y2, D2, B2 = _tt_pair(n2, _other_ranks(n2, [1] * (len(n2) + 1), seed), seed + 1, kind, ORDERS[(ORDERS.index(order) + 1) % 3], scale)
-    Y3, D3, B3 = _tt_pair(n[::-1], r[::-1], seed + 2, kind, order, scale)
+    Y1, D1, B1 = _tt_pair(n, r, seed, kind, order, scale, alias)
+    Y2, D2, B2 = _tt_pair(n2, _other_ranks(n2, [1] * (len(n2) + 1), seed) if not alias else [1] * (len(n2) + 1), seed + 1, kind,
+                          ORDERS[(ORDERS.index(order) + 1) % 3], scale, alias)
+    Y3, D3, B3 = _tt_pair(n[::-1], r[::-1], seed + 2, kind, order, scale, alias)
     snap = gen.snapshot([Y1, Y2, Y3])
     mo = np.multiply.outer
     table = (('outer(Y1,Y2)', teneva.outer(Y1, Y2), mo(D1, D2), mo(B1, B2), n + n2),
@@ -602,11 +638,11 @@ def _unnormalised(Yo, W, ltr, exact):
 
 
 @clause('C01.interface.vectors', funcs=('act_one.interface',))
-def interface_vectors(n, r, seed, kind, order, mode, norm, ltr, scale=1.0):
+def interface_vectors(n, r, seed, kind, order, mode, norm, ltr, scale=1.0, alias=None):
     """interface(Y, P, i, norm, ltr): d+1 vectors, the k-th is the (weighted / indexed) total of the sub-train
     on one side of bond k; 'natural' divides by the product of the mode sizes passed, 'linalg' normalises to
     unit length, None leaves the totals.  SKIP when a 'linalg' vector is (numerically) zero."""
-    Y, D, B = _tt_pair(n, r, seed, kind, order, scale)
+    Y, D, B = _tt_pair(n, r, seed, kind, order, scale, alias)
     d = len(n)
     exact = kind == 'int' and scale == 1.0
     g = gen.rng('iface', n, r, seed, mode)
@@ -678,10 +714,10 @@ def interface_vectors(n, r, seed, kind, order, mode, norm, ltr, scale=1.0):
 
 
 @clause('C01.get_and_grad.exact', funcs=('act_one.get_and_grad',))
-def get_and_grad_exact(n, r, seed, kind, order, scale=1.0):
+def get_and_grad_exact(n, r, seed, kind, order, scale=1.0, alias=None):
     """value = val(Y, i); the gradient tensor has the core shapes, its slice at i_k is the derivative of val
     w.r.t. the core entries (= value of the train with core k replaced by a unit core), zero elsewhere."""
-    Y, D, B = _tt_pair(n, r, seed, kind, order, scale)
+    Y, D, B = _tt_pair(n, r, seed, kind, order, scale, alias)
     d = len(n)
     exact = kind == 'int' and scale == 1.0
     Yo = _obj(Y) if exact else [np.asarray(G) for G in Y]
@@ -949,10 +985,10 @@ def algebra_many_modes(d, nk, seed):
 # ----------------------------------------------------------------------------- structure
 
 @clause('C01.props.shape_ranks_size_erank', funcs=('props.shape', 'props.ranks', 'props.size', 'props.erank'))
-def props_struct(n, r, seed, kind, order):
+def props_struct(n, r, seed, kind, order, alias=None):
     """shape = mode sizes, ranks = (1, r_1, ..., r_{d-1}, 1), size = number of core entries, erank = the
     non-negative root of a r^2 + b r = sum_k n_k r_{k-1} r_k (d >= 3), r_1 for d = 2."""
-    Y = gen.tt(n, r, seed, kind, order=order)
+    Y = gen.tt(n, r, seed, kind, order=order) if not alias else gen.tt_aliased(n, r, seed, kind, order=order, which=alias)
     d = len(n)
     sh, rk, sz = teneva.shape(Y), teneva.ranks(Y), teneva.size(Y)
     if not isinstance(sh, np.ndarray) or sh.dtype.kind not in 'iu' or sh.shape != (d,) or sh.tolist() != list(n):
@@ -976,10 +1012,10 @@ def props_struct(n, r, seed, kind, order):
 
 
 @clause('C01.copy.independent', funcs=('act_one.copy',))
-def copy_independent(n, r, seed, kind, order):
+def copy_independent(n, r, seed, kind, order, alias=None):
     """copy(Y) denotes the same tensor core by core and shares nothing; numbers / None are returned as they
     are, arrays are copied."""
-    Y = gen.tt(n, r, seed, kind, order=order)
+    Y = gen.tt(n, r, seed, kind, order=order) if not alias else gen.tt_aliased(n, r, seed, kind, order=order, which=alias)
     snap = gen.snapshot(Y)
     Z = teneva.copy(Y)
     if not isinstance(Z, list) or Z is Y or len(Z) != len(Y):
@@ -1023,12 +1059,20 @@ def _tofloat(D):
     return float(D)
 
 
-def _leaf(g, n, kind):
+def _leaf(g, n, kind, alias=False):
     d = len(n)
     r = [1] + [int(x) for x in g.integers(1, 3, size=d - 1)] + [1]
     if g.random() < 0.15:
         r = [1] + [3] * (d - 1) + [1]
     order = ORDERS[int(g.integers(0, 3))]
+    if alias:               # a leaf whose core list repeats array objects (where the mode sizes allow a rank profile for it)
+        profs = gen.alias_rank_profiles(n)
+        if profs and g.random() < 0.8:
+            r = profs[int(g.integers(0, len(profs)))]
+            which = ('all', 'first', 'rest')[int(g.integers(0, 3))]
+            Y = gen.tt_aliased(n, r, int(g.integers(1 << 30)), kind, order=order, which=which)
+            D, B = _ref(Y, kind)
+            return _Node(Y, D, B, max(r), f'A{r}{order}{which}')
     Y = gen.tt(n, r, int(g.integers(1 << 30)), kind, order=order)
     D, B = _ref(Y, kind)
     return _Node(Y, D, B, max(r), f'T{r}{order}')
@@ -1065,26 +1109,26 @@ def _combine(op, a, b):
     raise ValueError(op)
 
 
-def _tree(g, n, depth, kind, tensor):
+def _tree(g, n, depth, kind, tensor, alias=False):
     """Random expression tree of mode sizes n evaluated simultaneously by teneva and on dense arrays."""
     if depth == 0 or g.random() < 0.12:
         if not tensor and g.random() < 0.5:
             return _number(g)
-        return _leaf(g, n, kind)
+        return _leaf(g, n, kind, alias)
     ops = ['add', 'sub', 'mul', 'copy'] + (['outer', 'outer'] if len(n) >= 4 else [])
     op = ops[int(g.integers(0, len(ops)))]
     if op == 'copy':
-        a = _tree(g, n, depth - 1, kind, tensor)
+        a = _tree(g, n, depth - 1, kind, tensor, alias)
         val = teneva.copy(a.val)
         return _Node(val, a.D, a.B, a.rank, f'copy({a.text})')
     if op == 'outer':
         j = int(g.integers(2, len(n) - 1))
-        a, b = _tree(g, n[:j], depth - 1, kind, True), _tree(g, n[j:], depth - 1, kind, True)
+        a, b = _tree(g, n[:j], depth - 1, kind, True, alias), _tree(g, n[j:], depth - 1, kind, True, alias)
         D, B = _combine('outer', a, b)
         return _Node(teneva.outer(a.val, b.val), D, B, max(a.rank, b.rank), f'outer({a.text},{b.text})')
     first_tensor = tensor and g.random() < 0.5
-    a = _tree(g, n, depth - 1, kind, first_tensor)
-    b = _tree(g, n, depth - 1, kind, tensor and a.num)
+    a = _tree(g, n, depth - 1, kind, first_tensor, alias)
+    b = _tree(g, n, depth - 1, kind, tensor and a.num, alias)
     if op == 'mul' and a.rank * b.rank > 36:
         op = 'add'
     fn = {'add': teneva.add, 'sub': teneva.sub, 'mul': teneva.mul}[op]
@@ -1095,11 +1139,12 @@ def _tree(g, n, depth, kind, tensor):
 
 
 @clause('C01.tree.random', funcs=('act_two.add', 'act_two.sub', 'act_two.mul', 'act_two.outer', 'act_one.copy'))
-def tree_random(n, seed, depth, kind, tensor):
+def tree_random(n, seed, depth, kind, tensor, alias=False):
     """A random expression tree over add / sub / mul / outer / copy / number operands denotes the same tensor
-    as the tree evaluated on dense arrays (exact == while all partial sums are integers below 2^53)."""
+    as the tree evaluated on dense arrays (exact == while all partial sums are integers below 2^53).  alias: the leaves
+    are tensors whose core lists repeat array objects, and numbers occur as operands next to them (tensor=False)."""
     g = gen.rng('tree', n, seed, depth, kind)
-    t = _tree(g, list(n), depth, kind, tensor)
+    t = _tree(g, list(n), depth, kind, tensor, alias)
     if t.num:
         want = t.D
         if isinstance(t.val, (list, np.ndarray)) or not (t.val == want or abs(t.val - want) <= 8 * EPS * abs(t.B)):
@@ -1217,6 +1262,38 @@ def cases(tier, seed):
             yield 'C01.accuracy.dense', dict(base, near='other')
             for mode, norm, ltr in (('plain', None, False), ('P', 'natural', True), ('i', 'linalg', False), ('iP', None, True)):
                 yield 'C01.interface.vectors', dict(base, mode=mode, norm=norm, ltr=ltr)
+    # tensors whose core LIST holds one array object at several positions ([g, g, g, g], [A, G, G, B], [A, B, A, B], ...;
+    # 'cross': two operands that share core objects with each other): every clause that takes a tensor
+    acfg = [([3, 3], [1, 1, 1]), ([2, 2, 2], [1, 1, 1, 1]), ([3, 3, 3, 3], [1, 1, 1, 1, 1]), ([2, 2, 2, 2], [1, 2, 2, 2, 1]),
+            ([2, 2, 2, 2], [1, 2, 1, 2, 1]), ([2, 3, 2, 3], [1, 2, 1, 2, 1]), ([1, 1, 1], [1, 1, 1, 1]),
+            ([3, 2, 2, 2, 3], [1, 3, 3, 3, 3, 1]), ([2, 2, 3], [1, 1, 1, 1]), ([3, 2, 2], [1, 1, 1, 1]),
+            ([2, 2, 2, 2, 2], [1, 1, 2, 1, 1, 1]), ([4, 4], [1, 1, 1])]
+    if big:
+        acfg += [([2] * 6, [1] * 7), ([3, 3, 3], [1, 3, 1, 1]), ([2, 2, 2, 2, 2], [1, 4, 4, 4, 4, 1]), ([1, 2, 1, 2], [1, 1, 1, 1, 1]),
+                 ([5, 5, 5], [1, 1, 1, 1]), ([2, 2, 2, 2, 2, 2], [1, 2, 1, 2, 1, 2, 1])]
+    for j, (n, r) in enumerate(acfg):
+        for wi, which in enumerate(('all', 'first', 'rest', 'cross')):
+            if not big and wi and wi != 1 + j % 3:
+                continue
+            for kind in ('int', 'gauss'):
+                base = dict(n=n, r=r, seed=4000 + j, kind=kind, order=ORDERS[(j + wi) % 3], alias=which)
+                for cid in std + ['C01.add_sub_mul.number_forms']:
+                    yield cid, dict(base)
+                for near in ('other', 'copy', 'scaled'):
+                    yield 'C01.accuracy.dense', dict(base, near=near)
+                yield 'C01.outer.dense', dict(base, n2=[[2, 2], [3, 3], [1, 1, 1]][j % 3])
+                for mode, norm, ltr in (('plain', None, False), ('P', 'natural', True), ('i', 'linalg', False), ('iP', None, True)):
+                    yield 'C01.interface.vectors', dict(base, mode=mode, norm=norm, ltr=ltr)
+                if big or wi == 0:
+                    yield 'C01.add_sub_mul.tensor_tensor', dict(base, scale=SCALES[j % len(SCALES)], scale2=1.0)
+                    yield 'C01.add_sub_mul.number_operands', dict(base, scale=SCALES[(j + 1) % len(SCALES)])
+    for n in [[2, 2], [3, 3, 3], [2, 2, 2, 2], [2, 3, 2, 3], [1, 1, 1]] + ([[2] * 5, [3, 2, 2, 3]] if big else []):
+        for kind in ('int', 'gauss'):
+            for depth in ((1, 2, 3, 4) if big else (1, 2, 3)):
+                for s in range(24 if big else 8):
+                    yield 'C01.tree.random', dict(n=n, seed=5000 + s, depth=depth, kind=kind, tensor=True, alias=True)
+            for s in range(6 if big else 3):
+                yield 'C01.tree.random', dict(n=n, seed=5000 + s, depth=2, kind=kind, tensor=False, alias=True)
     # expression trees
     roots = [[2, 3], [3, 1], [2, 1, 3], [1, 1, 1], [2, 2, 2], [3, 2, 2, 2], [1, 2, 2, 1], [2, 3, 1, 2]]
     if big:
